@@ -11,6 +11,7 @@ import (
 	"errors"
 	"fmt"
 	"net/http"
+	"strings"
 	"testing"
 	"time"
 
@@ -46,6 +47,36 @@ func c01StatusClass(s int) string {
 	return fmt.Sprintf("%dxx", s/100)
 }
 
+// c01RegistryProbe: the named registry's entry point must return. On a healthy
+// tree the probe takes microseconds; a fired watchdog with goroutines parked in
+// breaker.Get on the registry lock is the witness of C01:registry:hang.
+func c01RegistryProbe(m *vk.M) bool {
+	const wd = 45 * time.Second
+	ok := vk.Within(wd, func() {
+		for i := 0; i < 3; i++ {
+			n := fmt.Sprintf("c01-probe-%d-%d", vk.Seq(), i)
+			if breaker.Get(n) != breaker.Get(n) {
+				m.Violate("C01:registry:identity", "case=0;registry probe", "Get(%q) returned two different breakers", n)
+			}
+		}
+	})
+	if ok {
+		return true
+	}
+	var parked []string
+	for _, b := range vk.GoroutinesIn("lib/breaker.Get(") {
+		if strings.Contains(b, "sync.(*RWMutex)") || strings.Contains(b, "semacquire") {
+			parked = append(parked, b)
+		}
+	}
+	if len(parked) > 0 {
+		m.Violate("C01:registry:hang", "case=0;registry probe: Get(name) twice for three fresh names", "breaker.Get did not return within %v; %d goroutine(s) parked on the registry lock:\n%s", wd, len(parked), strings.Join(parked, "\n\n"))
+	} else {
+		m.Inconclusive("registry probe did not finish within %v and no goroutine is parked in breaker.Get", wd)
+	}
+	return false
+}
+
 func TestVerifC01HTTPClientTable(t *testing.T) {
 	m := vk.New(t, "C01", "httpc.NewServiceWithClient over a fake RoundTripper (redirects not followed), one service name (= one named breaker) per row, virtual clock frozen: every status 100-499 alone x150 => transport always invoked; 10000 mixed statuses < 500 => 0 rejections; every status 500-599 alone x400 and a transport error x400 => at least one call short-circuited with ErrServiceUnavailable; non-trivial = row completed (benign) / rejected (failing)")
 	defer m.Done()
@@ -53,6 +84,9 @@ func TestVerifC01HTTPClientTable(t *testing.T) {
 	stat.SetReporter(nil)
 	timex.VerifFakeClock(1000*time.Hour + time.Duration(m.Rand("clock").Int63n(int64(time.Hour))))
 	defer timex.VerifRealClock()
+	if !c01RegistryProbe(m) {
+		return
+	}
 	r := m.Rand("httpc")
 	perBenign := vk.N(150, 1000)
 	perBad := vk.N(400, 2000)
@@ -105,6 +139,39 @@ func TestVerifC01HTTPClientTable(t *testing.T) {
 			}
 		}
 		m.Case("mixed-benign", true)
+	}
+	for _, share := range []int{10, 30} {
+		svc, tr := newSvc(fmt.Sprint("mix", share))
+		n := vk.N(3000, 30000)
+		var acc, tot int64
+		okRow := true
+		for k := 0; k < n; k++ {
+			bad := r.Intn(100) < share
+			tr.status, tr.err = 100+r.Intn(400), nil
+			if bad {
+				if r.Intn(4) == 0 {
+					tr.err = errors.New("c01: connection reset")
+				} else {
+					tr.status = 500 + r.Intn(100)
+				}
+			}
+			must := 2*(tot-5) <= 3*acc
+			ran, err := call(svc, tr, k)
+			m.Count("calls_mixed_success_failure", 1)
+			if !ran {
+				if must {
+					m.Violate("C01:mixed:httpc:rejected-below-threshold", fmt.Sprintf("case=%d;%d%% 5xx/transport errors among statuses < 500", 750+share, share), "call #%d was rejected (%v) although the %d admitted calls so far were %d benign and %d failing, i.e. total-5 <= 1.5*successes", k, err, tot, acc, tot-acc)
+					okRow = false
+					break
+				}
+				continue
+			}
+			tot++
+			if !bad {
+				acc++
+			}
+		}
+		m.Case(fmt.Sprint("mixed-success-failure", share, okRow), okRow && tot > acc)
 	}
 	failing := func(idx int, label string, tr *c01Transport, svc Service) {
 		desc := fmt.Sprintf("case=%d;upstream outcome %s x%d", idx, label, perBad)
